@@ -2,16 +2,34 @@
 """tools/seedrun.py [ids…] – apply each seeded change under /verif/seeded/<id>/patch.diff to /repo, run the
 check(s) of the property it breaks (meta.json: "property", optional "also"), undo the change, and print
 whether it was caught.  Refuses to run when /repo has local modifications."""
-import json, os, subprocess, sys, time
+import json, os, signal, subprocess, sys, time
 VERIF = os.path.dirname(os.path.dirname(os.path.abspath(__file__)))
 REPO = os.environ.get("SEED_REPO") or os.environ.get("VP_RUN_REPO") or "/repo"   # a scratch checkout keeps /repo untouched
 
 def sh(cmd, **kw):
     return subprocess.run(cmd, shell=True, text=True, stdout=subprocess.PIPE, stderr=subprocess.STDOUT, **kw)
 
+def run_check(cmd, env, limit):
+    """run one check in its own process group; on timeout kill the whole group (workers included)"""
+    p = subprocess.Popen(cmd, shell=True, cwd=VERIF, env=env, text=True, stdout=subprocess.PIPE,
+                         stderr=subprocess.STDOUT, start_new_session=True)
+    try:
+        out, _ = p.communicate(timeout=limit)
+        return p.returncode, out
+    except subprocess.TimeoutExpired:
+        try:
+            os.killpg(p.pid, signal.SIGKILL)
+        except OSError:
+            pass
+        out, _ = p.communicate()
+        return 124, out
+
+
 def main():
     if sh("git -C %s status --porcelain --untracked-files=no" % REPO).stdout.strip():
-        print("refusing: /repo has local modifications"); return 2
+        if os.path.realpath(REPO) == "/repo":
+            print("refusing: /repo has local modifications"); return 2
+        sh("git -C %s checkout -- ." % REPO)       # a scratch checkout left dirty by a killed run
     ids = sys.argv[1:] or sorted(os.listdir(os.path.join(VERIF, "seeded")))
     tier = os.environ.get("SEED_TIER", "quick")
     res = []
@@ -25,10 +43,11 @@ def main():
         try:
             for p in props:
                 t0 = time.time()
-                r = sh("./check %s --tier %s" % (p, tier), cwd=VERIF, env=dict(os.environ, MAKO_REPO=REPO))
-                viol = [l for l in r.stdout.splitlines() if l.startswith("VIOLATION")]
-                print("%s -> check %s rc=%d %.0fs %s" % (sid, p, r.returncode, time.time() - t0, viol[:1]))
-                res.append((sid, p, r.returncode, viol[:1]))
+                rc, out = run_check("./check %s --tier %s" % (p, tier), dict(os.environ, MAKO_REPO=REPO),
+                                    int(os.environ.get("SEED_TIMEOUT", "1500")))
+                viol = [l for l in out.splitlines() if l.startswith("VIOLATION")]
+                print("%s -> check %s rc=%d %.0fs %s" % (sid, p, rc, time.time() - t0, viol[:1]))
+                res.append((sid, p, rc, viol[:1]))
         finally:
             sh("git -C %s checkout -- ." % REPO)
             sh("rm -rf %s/test/templates/modules" % REPO)
